@@ -38,6 +38,8 @@ func main() {
 	case "ledger":
 		wrapGenesis = os.Args[5] == "wrap"
 		err = ledgerRandom(num(2), int(num(3)), int(num(4)), os.Args[5] == "big" || wrapGenesis, enc)
+	case "crash":
+		err = crashMode(num(2), int(num(3)), int(num(4)), int(num(5)), enc)
 	case "gate":
 		err = gateMode(num(2), int(num(3)), enc)
 	case "replay":
